@@ -238,13 +238,28 @@ func (c *Channel) Invoke(ctx context.Context, method string, req, resp interface
 		cloner = ProtoCloner{}
 	}
 
+	// req belongs to the caller again as soon as Invoke returns (which can
+	// happen before the handler decodes it, if ctx is done), so the decode
+	// function and the return are mutually exclusive
+	var reqMu sync.Mutex
+	returned := false
 	codec := func(out interface{}) error {
+		reqMu.Lock()
+		defer reqMu.Unlock()
+		if returned {
+			return status.Error(codes.Canceled, "call completed before the request was decoded")
+		}
 		return cloner.Copy(out, req)
 	}
 	ctx, cancel := context.WithCancel(ctx)
 	sts := internal.UnaryServerTransportStream{Name: method}
 
 	defer cancel()
+	defer func() {
+		reqMu.Lock()
+		returned = true
+		reqMu.Unlock()
+	}()
 	ch := make(chan frame, 1)
 	go func() {
 		defer func() {
